@@ -61,7 +61,7 @@ def simulate(M, rng, pars, ngrains, cell, sym):
 
 
 def one_case(M, workdir, seed, ngrains=2, wedge=0., chi=0., omegasign=1, tilt=(0.002, -0.003, 0.004), flip=(1, 0, 0, 1), omfloat=True,
-             cell=(4.04, 4.04, 4.04, 90, 90, 90), sym="F"):
+             cell=(4.04, 4.04, 4.04, 90, 90, 90), sym="F", start_translations=True):
     rng = np.random.RandomState(seed)
     pars = dict(distance=150000., y_center=1020.3, z_center=1030.7, y_size=50., z_size=50., tilt_x=tilt[0], tilt_y=tilt[1], tilt_z=tilt[2],
                 o11=flip[0], o12=flip[1], o21=flip[2], o22=flip[3], wedge=wedge, chi=chi, omegasign=omegasign, wavelength=0.3, t_x=0., t_y=0., t_z=0.)
@@ -76,7 +76,9 @@ def one_case(M, workdir, seed, ngrains=2, wedge=0., chi=0., omegasign=1, tilt=(0
         f.write("#  sc  fc  omega  Number_of_pixels  avg_intensity  sum_intensity\n")
         for r in rows:
             f.write("%.6f %.6f %.6f 10 100.0 1000.0\n" % (r[0], r[1], r[2]))
-    st = [M["grain"].grain(ubi.dot(small_rot(rng, 0.05)), translation=t + rng.uniform(-20, 20, 3)) for ubi, t in grains]
+    # start grains: perturbed orientation and a position off by up to 20 um, or (the file an indexer writes) no translation at all
+    st = [M["grain"].grain(ubi.dot(small_rot(rng, 0.05)), translation=(t + rng.uniform(-20, 20, 3) if start_translations else None))
+          for ubi, t in grains]
     M["grain"].write_grain_file(start, st)
     with contextlib.redirect_stdout(io.StringIO()), contextlib.redirect_stderr(io.StringIO()):
         o = M["refinegrains"].refinegrains(tolerance=0.05, OmFloat=omfloat, OmSlop=0.25)
@@ -113,7 +115,8 @@ def one_case(M, workdir, seed, ngrains=2, wedge=0., chi=0., omegasign=1, tilt=(0
 CASES_QUICK = [dict(), dict(wedge=5.), dict(chi=3.), dict(omegasign=-1), dict(wedge=-4., chi=2., omegasign=-1), dict(flip=(-1, 0, 0, 1)),
                dict(flip=(0, 1, -1, 0), omegasign=-1), dict(omfloat=False), dict(omfloat=False, omegasign=-1, wedge=3.), dict(ngrains=4),
                dict(ngrains=1, wedge=2., tilt=(0.01, 0.02, -0.015)), dict(ngrains=1, omegasign=-1),
-               dict(cell=(3.0, 3.0, 5.0, 90, 90, 120), sym="P", ngrains=2, omegasign=-1, wedge=3.)]
+               dict(cell=(3.0, 3.0, 5.0, 90, 90, 120), sym="P", ngrains=2, omegasign=-1, wedge=3.),
+               dict(ngrains=3, start_translations=False), dict(ngrains=2, start_translations=False, omfloat=False, wedge=-2., omegasign=-1)]
 
 
 def bounded(ctx):
@@ -147,4 +150,4 @@ def bounded(ctx):
 
 
 def units(ctx):
-    return [BoundedUnit("simulate-assign-refine-save", bounded, "13 (thorough 26) settings x 1 (thorough 2) seeds")]
+    return [BoundedUnit("simulate-assign-refine-save", bounded, "15 (thorough 28) settings x 1 (thorough 2) seeds")]
